@@ -74,6 +74,26 @@ fn gen(rng: &mut Rng, idx: u64, _tier: Tier) -> Case {
     let n_ac = rng.range(1, 3) as usize;
     let addrs = gen::addresses(rng, n_ac);
     let mut acs: Vec<gen::Ac> = addrs.iter().map(|&a| gen::aircraft(rng, a)).collect();
+    if idx % 10_000 == 13 {
+        // a channel that has been clean for a very long time: more than 100 000 accepted lines in a row, then
+        // damaged squitters, one per read
+        let total = 100_010 + rng.range(0, 3_000) as usize;
+        let kind = *rng.pick(&[Kind::AirPos, Kind::Df11, Kind::Df4]);
+        let mut ops = vec![];
+        let mut left = total;
+        while left > 0 { let k = left.min(4096); ops.push(crate::script::Op::Data { dt_us: 0, bytes: crate::script::Bytes(gen::blob_of(rng, &mut acs, k, kind)), tag: "long-clean".into() }); left -= k; }
+        for _ in 0..rng.range(1, 4) {
+            let a = rng.below(acs.len() as u64) as usize;
+            let k = *rng.pick(&[Kind::Df11, Kind::Ident, Kind::AirPos, Kind::Vel12, Kind::Df18]);
+            let mut f = gen::frame(rng, &mut acs[a], k, true);
+            let nb = f.len() * 8;
+            modes::flip_bit(&mut f, rng.range(9, nb as i64) as usize);
+            if modes::syndrome(&f) >> 7 == 0 { modes::flip_bit(&mut f, 20); }
+            ops.push(crate::script::Op::Data { dt_us: rng.range(0, 1_000_000), bytes: crate::script::Bytes(gen::line_of(rng, &f, false)), tag: "corrupt:bitflip-after-long-clean".into() });
+        }
+        let script = Script::file(vec!["--delete-after=600".into(), "--update=1000000".into()], ops);
+        return Case { property: "C04".into(), mode: "long-clean".into(), script, args_b: None, log_level_b: None, meta: serde_json::Value::Null };
+    }
     let mut args: Vec<String> = vec![];
     if rng.chance(0.8) { args.push("--count-df".into()); args.push("--update=-1".into()); }
     if rng.chance(0.4) { args.push("--use-update-method".into()); }
@@ -129,7 +149,10 @@ fn gen(rng: &mut Rng, idx: u64, _tier: Tier) -> Case {
                 "bitflip-overlay"
             } else { class };
             let deco = rng.chance(0.3);
-            lines.push((gen::gap_us(rng, d).min(3_000_000), gen::line_of(rng, &f, deco), format!("corrupt:{}", class)));
+            let damaged = gen::line_of(rng, &f, deco);
+            lines.push((gen::gap_us(rng, d).min(3_000_000), damaged.clone(), format!("corrupt:{}", class)));
+            // the very same damaged frame may be received again at once (a repeater, a second receiver)
+            if rng.chance(0.1) { lines.push((if rng.chance(0.7) { 0 } else { rng.range(1, 500_000) }, damaged, format!("corrupt:{}:duplicate", class))); }
         }
         if i == n { break; }
         if rng.chance(0.05) {
@@ -144,6 +167,7 @@ fn gen(rng: &mut Rng, idx: u64, _tier: Tier) -> Case {
         // DF11 with a non-zero interrogator code is still a valid squitter
         lines.push((gen::gap_us(rng, d).min(12_000_000), gen::line_of(rng, &f, false), format!("{:?}", k).to_lowercase()));
     }
+    gen::long_uptime(rng, &mut lines, 0.03);
     let ch = if rng.chance(0.8) { Chunking::Line } else { Chunking::Pieces };
     // the stream may end without a final newline - and the unterminated last line may be a damaged squitter
     let unterminated = rng.chance(0.25);
